@@ -114,7 +114,13 @@ class OptimizerWrapper:
         else:
             parent_container = self._infer_parent_container()
             self.network_names = self._infer_network_attr_names(parent_container)
-            self.lr_name = self._infer_lr_name(parent_container)
+            # An explicit name wins: equal learning rates cannot be told apart
+            # by looking at the parent's attribute values
+            self.lr_name = (
+                lr_name
+                if lr_name is not None
+                else self._infer_lr_name(parent_container)
+            )
 
         assert self.network_names, "No networks found in the parent container."
 
